@@ -25,7 +25,7 @@ MARK = 0x1000
 OUTCOMES = ["success", "revert", "panic", "failflag", "stuck"]
 GUARDS = ["eq", "unreach", "mulsat", "mulunsat"]
 REPLIES = ["truth", "unknown", "hang", "slow_over", "crash_empty", "crash_partial", "garbage", "error_line",
-           "rc_nonzero_valid", "spawn_oserror", "core_missing", "core_garbled", "core_empty",
+           "rc_nonzero_valid", "spawn_oserror", "core_missing", "core_garbled", "core_empty", "core_truncated",
            "fs_enospc", "fs_short_write", "fs_out_eio"]
 PANIC_CODES = [0x01, 0x11, 0x12, 0x21]
 VERDICT_OF_EXIT = {0: "PASS", 1: "FAIL", 2: "TIMEOUT", 3: "ERROR", 4: "ERROR", 5: "ERROR"}
@@ -248,6 +248,10 @@ class C05Check:
                     return "slow"
                 if r.startswith("fs_"):
                     return "truth"  # the fault sits in the file system; the solver answers whatever file it finds
+                if r == "core_truncated":
+                    # the solver dies while printing the core: `unsat`, the first name and a piece of the second reach the pipe
+                    t = R.truncated_core(info.get("truth_stdout") or "") if info["truth"] == "unsat" else None
+                    return ("stdout:" + t) if t else "truth"
                 if r in ("core_missing", "core_garbled", "core_empty"):
                     if info["truth"] == "unsat":
                         return {"core_missing": "stdout:unsat\n", "core_garbled": "stdout:unsat\n(<12 <oops\n",
